@@ -107,6 +107,13 @@ struct ChanSmooth
     }
 };
 
+template <class P> void opaque(P& p, std::true_type)
+{
+    using ch_t = typename std::remove_reference<decltype(gil::get_color(p, gil::alpha_t()))>::type;
+    gil::get_color(p, gil::alpha_t()) = gil::channel_traits<ch_t>::max_value();
+}
+template <class P> void opaque(P&, std::false_type) {}
+
 // deterministic content for generated images
 template <class View> void fill_pattern(View const& v, uint64_t seed, int mode = 0)
 {
@@ -124,6 +131,7 @@ template <class View> void fill_pattern(View const& v, uint64_t seed, int mode =
             }
             uint64_t k = mode == 1 ? seed : mode == 2 ? mix(seed, (uint64_t)((x / 4) + 7 * (y / 4))) : mix(seed, (uint64_t)(y * 65537 + x));
             gil::static_for_each(p, ChanSet{k});
+            if (mode == 4) opaque(p, typename boost::mp11::mp_contains<typename gil::color_space_type<value_t>::type, gil::alpha_t>::type()); // random colours, alpha = max
             v(x, y) = p;
         }
 }
@@ -313,6 +321,7 @@ struct ReadSpec
     DevSpec dev;
     long sub_x = 0, sub_y = 0, sub_w = 0, sub_h = 0; // image_read_settings sub-rectangle (0 = whole)
     bool prefill = true;
+    bool meta = false; // ask the reader for all optional metadata (formats whose settings offer it)
 };
 
 template <class Tag>
@@ -320,11 +329,15 @@ struct Reader
 {
     using settings_t = gil::image_read_settings<Tag>;
 
+    template <class S> static auto all_meta(S& st, int) -> decltype(st.set_read_members_true(), void()) { st.set_read_members_true(); }
+    template <class S> static void all_meta(S&, long) {}
     static settings_t settings(ReadSpec const& s)
     {
+        settings_t st;
         if (s.sub_w > 0 || s.sub_h > 0 || s.sub_x > 0 || s.sub_y > 0)
-            return settings_t(gil::point_t(s.sub_x, s.sub_y), gil::point_t(s.sub_w, s.sub_h));
-        return settings_t();
+            st = settings_t(gil::point_t(s.sub_x, s.sub_y), gil::point_t(s.sub_w, s.sub_h));
+        if (s.meta) all_meta(st, 0);
+        return st;
     }
 
     // dimensions reported by a pristine FILE* read of the header (for pre-sizing destinations)
@@ -347,7 +360,7 @@ struct Reader
         Outcome o;
         guarded(o, [&] {
             with_read_device<Tag>(s.dev, bytes, ext, [&](auto& dev) {
-                auto be = gil::read_image_info(dev, Tag());
+                auto be = gil::read_image_info(dev, settings(s));
                 o.w = (long)be._info._width; o.h = (long)be._info._height;
             });
         });
